@@ -186,14 +186,11 @@ Definition param_wins (colon : bool) (st : pstate) : bool :=
   | Undefined => false
   end.
 
-(** [polymorphic_len]: the number of fields for an array-like expansion, else the sum of
-    [piece.len()] — the UTF-8 BYTE length (a recorded divergence from bash for non-ASCII values) *)
-Definition utf8_len (c : char) : nat :=
-  if (c <? 128)%N then 1%nat else if (c <? 2048)%N then 2%nat else if (c <? 65536)%N then 3%nat else 4%nat.
-Definition byte_len (s : str) : nat := fold_right (fun c n => (utf8_len c + n)%nat) O s.
+(** [polymorphic_len]: the number of fields for an array-like expansion, else the number of
+    CHARACTERS of the fields ([char_count], after repair 68104b7; it used to be the byte length) *)
 Definition poly_len (x : expansion) : nat :=
   if from_array x then length (fields x)
-  else fold_left (fun acc f => (acc + byte_len (field_str f))%nat) (fields x) O.
+  else fold_left (fun acc f => (acc + length (field_str f))%nat) (fields x) O.
 
 (** * Coalescing adjacent pieces *)
 
